@@ -31,6 +31,38 @@ pub trait SimHooks: Send + Sync {
     fn before_send(&self);
     /// Called on the search thread when it has emptied its command channel during a search.
     fn drained(&self) {}
+    /// Called on the idle search thread when its command channel is empty: the simulator parks the
+    /// thread here and lets it look again whenever it decides to.
+    fn idle_wait(&self) {}
+    /// Called on the idle search thread right after it took a message out of its command channel.
+    fn idle_received(&self) {}
+}
+
+/// Receiving end of the search thread's command channel. Without a simulator it is the plain
+/// `Receiver`; with one, a blocking `recv` becomes "look, and if nothing is there ask the simulator
+/// when to look again", so that the simulator never has to guess whether a message is on its way.
+pub struct SimReceiver<T>(std::sync::mpsc::Receiver<T>);
+
+impl<T> SimReceiver<T> {
+    pub fn new(inner: std::sync::mpsc::Receiver<T>) -> Self { Self(inner) }
+
+    pub fn recv(&self) -> Result<T, std::sync::mpsc::RecvError> {
+        match hooks() {
+            None => self.0.recv(),
+            Some(h) => loop {
+                match self.0.try_recv() {
+                    Ok(message) => {
+                        h.idle_received();
+                        return Ok(message);
+                    }
+                    Err(std::sync::mpsc::TryRecvError::Disconnected) => return Err(std::sync::mpsc::RecvError),
+                    Err(std::sync::mpsc::TryRecvError::Empty) => h.idle_wait(),
+                }
+            },
+        }
+    }
+
+    pub fn try_recv(&self) -> Result<T, std::sync::mpsc::TryRecvError> { self.0.try_recv() }
 }
 
 static HOOKS: RwLock<Option<Arc<dyn SimHooks>>> = RwLock::new(None);
